@@ -134,14 +134,17 @@ def transform(model, sheet, row, prefs):
                 margins = []
                 for (name, md), mr in zip(m[3], r.cssRules):
                     dd = decls(md, mr.style)
-                    if dd or prefs.keepEmptyRules or has_comment(mr.style):
+                    # (keepEmptyRules is asked for style and @media rules only: a margin box, @page or @font-face rule
+                    # without written content is left out under every setting - Props/C05 empty_page_is_never_written -
+                    # which is also what the default serialisation does, so nothing changes meaning)
+                    if dd or has_comment(mr.style):
                         margins.append((name, dd))
-                if not d and not margins and not prefs.keepEmptyRules and not has_comment(r.style):
+                if not d and not margins and not has_comment(r.style):
                     continue
                 out.append(('page', m[1], d, margins))
             elif k == 'fontface':
                 d = decls(m[1], r.style)
-                if not d and not prefs.keepEmptyRules and not has_comment(r.style):
+                if not d and not has_comment(r.style):
                     continue
                 out.append(('fontface', d))
             else:
